@@ -118,14 +118,7 @@ func (s *tunnelServer) serve(tunnelMetadata metadata.MD) error {
 // itself is still valid for subsequent RPCs. This will be the case, for example, if the requested
 // method name is not implemented by the server.
 func (s *tunnelServer) createStream(ctx context.Context, streamID int64, frame *tunnelpb.NewStream) (bool, error) {
-	if s.isClosing() {
-		return true, status.Errorf(codes.Unavailable, "server is shutting down")
-	}
-
-	if frame.ProtocolRevision != tunnelpb.ProtocolRevision_REVISION_ZERO &&
-		frame.ProtocolRevision != tunnelpb.ProtocolRevision_REVISION_ONE {
-		return true, status.Errorf(codes.Unavailable, "server does not support protocol revision %d", frame.ProtocolRevision)
-	}
+	closing := s.isClosing()
 	noFlowControl := frame.ProtocolRevision == tunnelpb.ProtocolRevision_REVISION_ZERO
 
 	s.mu.Lock()
@@ -140,6 +133,17 @@ func (s *tunnelServer) createStream(ctx context.Context, streamID int64, frame *
 		return false, fmt.Errorf("cannot create stream ID %d: that ID has already been used", streamID)
 	}
 	s.lastSeen = streamID
+
+	// Stream-level rejections must come after the ID has been validated and
+	// recorded: the client may already have sent more frames for this stream,
+	// and those must be ignored instead of being treated as a protocol error.
+	if closing {
+		return true, status.Errorf(codes.Unavailable, "server is shutting down")
+	}
+	if frame.ProtocolRevision != tunnelpb.ProtocolRevision_REVISION_ZERO &&
+		frame.ProtocolRevision != tunnelpb.ProtocolRevision_REVISION_ONE {
+		return true, status.Errorf(codes.Unavailable, "server does not support protocol revision %d", frame.ProtocolRevision)
+	}
 
 	if frame.MethodName[0] == '/' {
 		frame.MethodName = frame.MethodName[1:]
